@@ -128,7 +128,7 @@ class World(object):
         """mangled name of Class<Scalar>::meth(Scalar x arity)"""
         cls = self.class_of(sol)
         c = SC[sol['scalar']]
-        return '_ZN4MASA%d%sI%sE%d%sE%s%s' % (len(cls), cls, c, len(meth), meth, c * arity if arity else 'v', extra)
+        return '_ZN4MASA%d%sI%sE%d%sE%s%s' % (len(cls), cls, c, len(meth), meth, c * arity if arity else ('' if extra else 'v'), extra)
 
     def class_of(self, sol):
         # vtable symbol _ZTVN4MASA<len><cls>I<d|e>EE
